@@ -104,7 +104,7 @@ def check_history(ctx: Ctx, case, baselines=None) -> None:
                 ctx.fail("baseline-crashed", f"fresh parse died: {b['crash'][-400:]}", rc)
                 return
             b = b["results"][0]
-            if ctx.tier == "thorough" or not base_cache:
+            if ctx.tier == "thorough" or not base_cache or sel:
                 b2 = run_job([texts[ti]], [["parse", 0, sel]], hashseed="987654321")
                 b2 = b2["results"][0] if "results" in b2 else b2
                 if b2 != b:
@@ -125,6 +125,13 @@ def check_history(ctx: Ctx, case, baselines=None) -> None:
             if r["obs"] != b["obs"]:
                 ctx.fail("history-dependent", f"text {ti} selection {sel} ({how}): chart differs from the "
                                               f"fresh-interpreter parse: {diff_paths(b['obs'], r['obs'])}", rc)
+            elif r.get("order") != b.get("order"):
+                ctx.fail("history-dependent", f"text {ti} selection {sel} ({how}): instrument_tracks iterates "
+                                              f"as {r.get('order')} here but as {b.get('order')} in a fresh "
+                                              f"interpreter", rc)
+            elif r.get("rendered") != b.get("rendered"):
+                ctx.fail("history-dependent", f"text {ti} selection {sel} ({how}): str()/repr() of the chart "
+                                              f"differ from the fresh-interpreter parse", rc)
             if r.get("eq_first") is False:
                 ctx.fail("repeat-not-equal", f"text {ti} selection {sel} ({how}): chart != the chart "
                                              f"parsed earlier from the same text in this process", rc)
@@ -240,10 +247,12 @@ def drive_machine(ctx: Ctx) -> None:
             ctx.classes[f"variant_{kind}"] += 1
 
         def _sel(self, data, ti):
-            if data.draw(st.integers(0, 3)) != 0:
+            if data.draw(st.integers(0, 2)) != 0:
                 return None
-            return data.draw(st.lists(st.sampled_from(["ExpertSingle", "EasySingle", "MediumSingle",
-                                                       "HardDoubleBass", "ExpertDrums"]), max_size=3))
+            import re
+            present = [h for h in re.findall(r"^\[(.+)\]$", self.case["texts"][ti], flags=re.M) if h in S.HEADERS]
+            pool = (present * 3 + ["ExpertSingle", "EasySingle", "ExpertDrums"]) or ["ExpertSingle"]
+            return data.draw(st.lists(st.sampled_from(pool), max_size=4))
 
         @rule(data=st.data(), i=st.integers(0, 7))
         def parse(self, data, i):
@@ -255,7 +264,8 @@ def drive_machine(ctx: Ctx) -> None:
               schedule=st.lists(st.tuples(st.integers(0, 3), st.sampled_from([1, 1, 2, 3, 5, 17, 100, 1000])),
                                 min_size=1, max_size=40))
         def parse_threads(self, data, idx, mode, schedule):
-            items = [[i % len(self.case["texts"]), self._sel(data, i)] for i in idx]
+            n_texts = len(self.case["texts"])
+            items = [[i % n_texts, self._sel(data, i % n_texts)] for i in idx]
             self.case["ops"].append(["threads", items, mode, [list(s) for s in schedule]])
 
         def teardown(self):
